@@ -50,7 +50,7 @@ Explains(kind, p, e) ==
                                              /\ p.d.at = e.d.at /\ p.d.idlen = e.d.idlen
                                              /\ p.d.cose = e.d.cose /\ p.d.stored = e.d.stored
                                              /\ p.d.prfEnabled = e.d.prfEnabled
-                                             /\ p.d.prf1 = e.d.prf1 /\ p.d.prf2 = e.d.prf2
+                                             /\ p.d.prf1 = e.d.prf1 /\ p.d.prf2 = e.d.prf2 /\ p.d.info = e.d.info
                                              /\ CL!ClientExplains(p.d.client, e.d.client))
          [] OTHER -> FALSE
 
